@@ -21,6 +21,14 @@ Theorem C04_stream : forall t d cs sizes dflt, wf t = true -> bytes_ok d = true 
 Proof. exact stream. Qed.
 Print Assumptions C04_stream.
 
+(* an EMPTY announced table ("escape_chars": []): the reader passes the stream through
+   unchanged, for every chunking and every sequence of caller buffer sizes *)
+Theorem C04_stream_empty_table : forall cs sizes dflt,
+  all_nonempty cs = true -> Forall (fun s => 1 <= s)%nat sizes -> (1 <= dflt)%nat ->
+  concat (er_run_passthru (er_passthru_fuel cs) cs sizes dflt) = concat cs.
+Proof. intros cs sizes dflt Hn Hs Hd. apply er_run_passthru_concat; auto. Qed.
+Print Assumptions C04_stream_empty_table.
+
 (* the writer side: escaping chunk by chunk = escaping the whole *)
 Theorem C04_writer : forall t chunks, concat (ew_write t chunks) = escape t (concat chunks).
 Proof. exact ew_write_concat. Qed.
